@@ -86,7 +86,7 @@ def validate_port(port):
     if isinstance(port, str) and port.isdigit():
         port = int(port)
     if isinstance(port, int) and 0 < port <= 65535:
-        return port
+        return int(port)
     raise ValueError(f'invalid port: {port}')
 
 
